@@ -1,6 +1,8 @@
 (* C16 — Decompose/Recompose and Marshal/Unmarshal are inverse on user types. *)
 From Coq Require Import Init.Byte ZArith String List Bool.
 Require Import Ojg.Base.Bytes Ojg.Base.Jv Ojg.Enc.Struct Ojg.Enc.Recompose Ojg.Gen.Fields.
+Require Import Ojg.Json.Machine Ojg.Json.Frontends Ojg.Json.Writer Ojg.Json.ParseWrite Ojg.Enc.MarshalRT.
+Require Import Ojg.Json.Sweep_parser Ojg.Json.DSweeps Ojg.Json.ValueSimSweeps.
 Import ListNotations.
 
 (* decoding the exact-key encoding of any well-typed value (structs nested arbitrarily, pointers,
@@ -43,6 +45,32 @@ Example C16_example :
   wt ty v = true /\ dec ty (enc o_exact0 ty v) = Some (GStruct [GStr [x61]; GPtr (GStruct [GInt 7]); GSlice []]).
 Proof. vm_compute. split; reflexivity. Qed.
 
+
+(* Unmarshal after Marshal (oj.Parser on the unsorted writer's output, then decoding into the type):
+   for every well-typed value whose exact-key encoding is a clean tree (ParseWrite.clean: integers
+   below the scan-ahead threshold, plain decimal floats, valid UTF-8 strings, distinct names, nothing
+   the options omit) the value comes back, for every indentation, WriteLimit and HTML-safety setting.
+   Composition of C16_decode_encode with the refinement theorems of C02 and C04. *)
+Theorem C16_unmarshal_marshal : forall o lim t v,
+  w_sort o = false -> wt t v = true -> clean o (enc o_exact0 t v) ->
+  match run_all fe_parser (write_all o lim (enc o_exact0 t v)) with
+  | OOk [j] _ => dec t j = Some (norm t v)
+  | _ => False
+  end.
+Proof. exact (unmarshal_marshal true fe_parser eq_refl sweep_parser dsweep_parser simsweep_parser). Qed.
+
+Example C16_unmarshal_marshal_example :
+  let tg0 := mkTag false [] false false false in
+  let inner := TStruct [x49] [Fld [x41] true tg0 false (TInt true)] in
+  let ty := TStruct [x54] [Fld [x4e] true tg0 false TStr; Fld [x50] true tg0 false (TPtr inner); Fld [x4c] true tg0 false (TSlice (TInt true))] in
+  let v := GStruct [GStr [x61]; GPtr (GStruct [GInt 7]); GSlice [GInt 1; GInt 2]] in
+  match run_all fe_parser (write_all (mkW 2 false false false false true) (Some 8) (enc o_exact0 ty v)) with
+  | OOk [j] _ => dec ty j = Some v
+  | _ => False
+  end.
+Proof. vm_compute. reflexivity. Qed.
+
+Print Assumptions C16_unmarshal_marshal.
 Print Assumptions C16_decode_encode.
 Print Assumptions C16_index_independent_of_history.
 Print Assumptions C16_name_key_refuted.
